@@ -4,6 +4,7 @@ package verifsim
 
 import (
 	"fmt"
+	"runtime"
 	"sync"
 	"testing"
 	"time"
@@ -27,6 +28,9 @@ type simTask struct {
 	resume chan struct{}
 	parked chan string
 	done   bool
+	// resumed but neither parked nor finished: it is blocked on a lock held
+	// by a parked task and goes on by itself once the lock is released
+	background bool
 }
 
 type TaskSched struct {
@@ -37,6 +41,7 @@ type TaskSched struct {
 	tasks  []*simTask
 	seq    int64 // global event sequence (invoke/return stamps)
 	steps  int
+	stuck  int
 	// Bias: probability (0..1) of continuing the same task at a yield
 	Stickiness float64
 }
@@ -108,8 +113,24 @@ func (s *TaskSched) Run() {
 			s.Out.Probe("task_switch")
 		}
 		last = pick.id
-		pick.resume <- struct{}{}
-		site := <-pick.parked
+		if !pick.background {
+			pick.resume <- struct{}{}
+		}
+		site, ok := s.await(pick)
+		if !ok {
+			// not at a yield point and not finished: blocked on a lock that a
+			// parked task holds. Let it be and schedule someone else.
+			pick.background = true
+			s.Out.Probe("task_blocked_on_lock")
+			s.stuck++
+			if s.stuck > 10000 {
+				s.Out.Harness = "TaskSched: tasks blocked forever (deadlock among simulated tasks)"
+				return
+			}
+			continue
+		}
+		s.stuck = 0
+		pick.background = false
 		if site == "\x00done" {
 			pick.done = true
 		} else {
@@ -120,6 +141,20 @@ func (s *TaskSched) Run() {
 			}
 		}
 	}
+}
+
+// await waits for t to reach a yield point or finish. A task that is neither
+// after plenty of scheduler yields is blocked on a lock.
+func (s *TaskSched) await(t *simTask) (string, bool) {
+	for i := 0; i < 20000; i++ {
+		select {
+		case site := <-t.parked:
+			return site, true
+		default:
+			runtime.Gosched()
+		}
+	}
+	return "", false
 }
 
 // ---------------------------------------------------------------------------
